@@ -536,6 +536,9 @@ impl Monitor for C13 {
             self.word_case(idx, obs)
         }
     }
+    fn boot_mut(&mut self) -> Option<&mut Xstate> {
+        Some(&mut self.boot)
+    }
     fn describe(&mut self, idx: u64) -> String {
         format!("tag twin case #{} (word {})", idx, self.words[(idx / 2) as usize % self.words.len()])
     }
